@@ -165,6 +165,18 @@ func faultsInstallHooks() {
 	}
 }
 
+// faultsCatch runs f and reports a recovered panic. ui.Fatal panics with the EMPTY string
+// (pterm's checkFatal: panic("")), so the panic value cannot serve as the flag.
+func faultsCatch(f func()) (p string) {
+	defer func() {
+		if r := recover(); r != nil {
+			p = "panic: " + fmt.Sprint(r)
+		}
+	}()
+	f()
+	return ""
+}
+
 func faultsCZ(s string) string {
 	n, err := strconv.Atoi(strings.TrimSpace(s))
 	if err != nil {
@@ -410,26 +422,26 @@ func faultsRun(ctx *Ctx, seq int, in faultsIn) (faultsObs, string, []string) {
 			return true
 		}
 		setPhase("mon")
-		if crashed(catch(func() { _ = internal.VerifUpdateSensor(sensor) })) {
+		if crashed(faultsCatch(func() { _ = internal.VerifUpdateSensor(sensor) })) {
 			break
 		}
 		if fan.Supports(fans.FeatureRpmSensor) {
 			setPhase("rpm")
-			if crashed(catch(func() { c.VerifMeasureRpm() })) {
+			if crashed(faultsCatch(func() { c.VerifMeasureRpm() })) {
 				break
 			}
 		}
 		setPhase("ufs")
 		e.nPwmReads = 0
 		var uerr error
-		if crashed(catch(func() { uerr = c.UpdateFanSpeed() })) {
+		if crashed(faultsCatch(func() { uerr = c.UpdateFanSpeed() })) {
 			break
 		}
 		if uerr != nil {
 			// the control actor of Run: ErrorAndNotify, restorePwmEnabled, return
 			obs.Stalled[k] = errors.Is(uerr, controller.ErrFanStalledAtMaxPwm)
 			setPhase("restore")
-			if crashed(catch(func() { c.VerifRestore() })) {
+			if crashed(faultsCatch(func() { c.VerifRestore() })) {
 				break
 			}
 			obs.Kind, obs.Cycle = 1, k
